@@ -56,11 +56,16 @@ def main():
     traces = []
     etas = [(0, 1), (3, 10), (1, 2), (1, 1)] + ([] if quick else [(1, 10), (9, 10), (2, 3)])
     # ---- exact ---------------------------------------------------------------------------------------------------
-    for d in (2, 3):
+    # one copula object serves both dimensions, in either order (the helpers share one copula between 2-d and 3-d models)
+    shared = {}
+    for d in (2, 3, 2):
         lat = L2 if d == 2 else L3
         for kind in ("clayton1", "indep", "dep"):
             for (en, ed) in (etas if kind == "clayton1" else [(1, 2)]):
-                cop = make(kind, 1.0, en / ed)
+                key = (kind, en, ed)
+                if key not in shared:
+                    shared[key] = make(kind, 1.0, en / ed)
+                cop = shared[key]
                 hdr = {"kind": f"exact:{kind}:d{d}", "cop": kind, "eta": [en, ed], "d": d, "lat": lat}
                 ev = []
                 try:
@@ -100,11 +105,15 @@ def main():
                 traces.append({"tid": f"q{len(traces)}", "hdr": hdr, "ev": ev})
     # ---- thin: Clayton at other parameters ---------------------------------------------------------------------------
     thetas = [0.5, 0.7, 2.0, 5.0] + ([] if quick else [0.2, 1.0, 1.5, 3.0, 10.0])
-    for d in (2, 3):
+    shared_q = {}
+    for d in (3, 2, 3):
         lat = L2 if d == 2 else L3
         for theta in thetas:
             for (en, ed) in etas:
-                cop = make("clayton", theta, en / ed)
+                key = (theta, en, ed)
+                if key not in shared_q:
+                    shared_q[key] = make("clayton", theta, en / ed)
+                cop = shared_q[key]
                 hdr = {"kind": f"thin:clayton:d{d}", "cop": "clayton", "eta": [en, ed], "d": d, "lat": lat, "theta100": int(round(theta * 100))}
                 ev = []
                 try:
